@@ -36,6 +36,15 @@ def params_hash(model):
     return _h(*[np.asarray(model.parameters[k]) for k in sorted(model.parameters)])
 
 
+def hyper_repr(model):
+    """Hyper-parameters of the model as the file would hold them (kind, features, dimension, sources, observation models)."""
+    try:
+        d = model.to_dict()
+    except Exception as e:  # noqa: BLE001
+        return f"to_dict failed: {type(e).__name__}"
+    return repr({k: v for k, v in d.items() if k not in ("parameters", "leaspy_version")})
+
+
 def pop_hash(model):
     st = model.state
     vals = []
@@ -58,6 +67,7 @@ class Replayer:
         from leaspy.io.data import Data
         from leaspy.io.data.dataset import Dataset
         joint = bool(zoo.CONFIGS[kind][1].get("events"))
+        self.data_d1 = Data.from_dataframe(self.dfs["D1"], data_type="joint") if joint else Data.from_dataframe(self.dfs["D1"])
         self.inputs = {"D1": self.dfs["D1"],
                        "D2": Dataset(Data.from_dataframe(self.dfs["D2"], data_type="joint") if joint else Data.from_dataframe(self.dfs["D2"]))}
         self.settings = {}
@@ -166,6 +176,7 @@ class Replayer:
             history.append(call)
             pre_params = params_hash(model) if model.is_initialized else None
             pre_pop = pop_hash(model) if model.is_initialized else None
+            pre_hyper = hyper_repr(model) if model.is_initialized else None
             inputs_ok = True
             result = None
             try:
@@ -187,7 +198,8 @@ class Replayer:
                         result = _h(*[est[i] for i in sorted(est)])
                         inputs_ok = tp == tsnap
                     elif op in ("PersoScipy", "PersoMean", "PersoMode"):
-                        df = self.inputs[call[1]]
+                        # D1: a Data object kept by the caller (the fit receives the table), D2: a Dataset object
+                        df = self.data_d1 if call[1] == "D1" else self.inputs[call[1]]
                         snap = self.snap(df)
                         settings = self.settings_for(op, call[1], call[2])
                         psnap = copy.deepcopy(vars(settings))
@@ -236,6 +248,8 @@ class Replayer:
                     return k, f"{call} changed the model parameters", history
                 if pop_hash(model) != pre_pop:
                     return k, f"{call} changed the population variables", history
+                if op != "Fit" and hyper_repr(model) != pre_hyper:
+                    return k, f"{call} changed the hyper-parameters: {pre_hyper} -> {hyper_repr(model)}", history
             if result is not None:
                 obs.append((repr(last), result, list(history)))
             elif op == "Fit":
